@@ -723,6 +723,8 @@ pub fn grid() -> Vec<Scn> {
     let params: &[(usize, usize, usize)] = &[
         (0, 1, 0), (0, 1, 1), (0, 1, 10), (5, 10, 0), (5, 10, 4), (5, 10, 5), (5, 10, 10), (5, 15, 10),
         (0, 10, 10), (0, 10, 9), (9, 10, 1), (1, 1, 0), (3, 2, 0), (0, 1000, 1000), (0, 1000, 999), (500, 1024, 524),
+        // requests the ring can never hold: full ring, writer leaves
+        (1000, 1025, 24), (1024, 1025, 0), (0, 3000, 1024),
     ];
     let cap = 1024usize; // u32 samples in the one-page stream the scenarios use
     for &(b, need, k) in params {
